@@ -45,8 +45,10 @@ ValsT == {-1, 0, 2}
 ScalQ == {-1, 2}
 ScalT == {-2, 0, 3}
 
-VARIABLES regs, prog
-vars == <<regs, prog>>
+VARIABLES regs,   \* the register file
+          prog,   \* history: the calls made so far (for REPLAY; not part of the VIEW)
+          last    \* register written by the last call (0: none); focuses the law check
+vars == <<regs, prog, last>>
 
 Reg(i) == IF i = 0 THEN Empty ELSE regs[i]
 Regs0 == 0..NR
@@ -65,12 +67,14 @@ Do(op, a, b, dst, ia, iv, iw) ==
     /\ s.en
     /\ Bounded(s.val)
     /\ regs' = [regs EXCEPT ![IF op \in WritesFirst THEN a ELSE dst] = s.val]
+    /\ last' = (IF op \in WritesFirst THEN a ELSE dst)
     /\ prog' = Append(prog, Call(op, a, b, dst, ia, iv, iw))
 
 (* an observation: the registers do not change *)
 Ask(op, a, b, ia, iv, iw) ==
     /\ Len(prog) < MaxOps
     /\ UNCHANGED regs
+    /\ last' = 0
     /\ prog' = Append(prog, Call(op, a, b, 0, ia, iv, iw))
 
 (***************************************************************************)
@@ -135,11 +139,15 @@ Element ==
           op \in {"set", "add_element_mut", "sub_element_mut", "mul_element_mut"} :
              Do(op, a, 0, 0, <<i, j, v>>, <<>>, <<>>)
 
-Convert ==
-    \E dst \in 1..NR :
-       \/ \E a \in RegsM : \/ Do("to_row_vector", a, 0, dst, <<>>, <<>>, <<>>)
-                           \/ \E i \in 1..regs[a].r : Do("get_row", a, 0, dst, <<i>>, <<>>, <<>>)
-       \/ \E a \in RegsV : Do("from_row_vector", a, 0, dst, <<>>, <<>>, <<>>)
+ConvertM ==
+    \E dst \in 1..NR, a \in RegsM :
+       LET A == regs[a] IN
+       \/ Do("to_row_vector", a, 0, dst, <<>>, <<>>, <<>>)
+       \/ \E i \in 1..A.r : Do("get_row", a, 0, dst, <<i>>, <<>>, <<>>)
+
+ConvertV ==
+    \E dst \in 1..NR, a \in RegsV :
+       LET A == regs[a] IN Do("from_row_vector", a, 0, dst, <<>>, <<>>, <<>>)
 
 VectorOp ==
     \E a \in RegsV, dst \in 1..NR :
@@ -165,22 +173,26 @@ Reject ==
        \/ /\ DotDefined(regs[a], regs[b]) /\ ~SameShape(regs[a], regs[b])
           /\ Ask("dot", a, b, <<>>, <<>>, <<>>)
 
-Query ==
-    \/ \E a \in RegsM :
+QueryM ==
+    \E a \in RegsM :
+       LET A == regs[a] IN
           \/ \E op \in {"shape", "sum", "min", "max", "norm1", "norm_inf", "norm_ninf", "norm2sq", "argmax", "unique",
                         "column_mean", "cov", "softmax_mut"} :
-                /\ (op = "cov" => regs[a].r >= 2)
+                /\ (op = "cov" => A.r >= 2)
                 /\ Ask(op, a, 0, <<>>, <<>>, <<>>)
           \/ \E op \in {"mean", "var", "std"}, axis \in {0, 1} : Ask(op, a, 0, <<axis>>, <<>>, <<>>)
-          \/ \E i \in 1..regs[a].r : Ask("get_row_as_vec", a, 0, <<i>>, <<>>, <<>>)
-          \/ \E j \in 1..regs[a].c : Ask("get_col_as_vec", a, 0, <<j>>, <<>>, <<>>)
+          \/ \E i \in 1..A.r : Ask("get_row_as_vec", a, 0, <<i>>, <<>>, <<>>)
+          \/ \E j \in 1..A.c : Ask("get_col_as_vec", a, 0, <<j>>, <<>>, <<>>)
           \/ \E b \in RegsM :
                 \/ \E op \in {"eq", "div", "max_diff"} :
-                      /\ (op # "eq" => SameShape(regs[a], regs[b]))
+                      /\ (op # "eq" => SameShape(A, regs[b]))
                       /\ Ask(op, a, b, <<>>, <<>>, <<>>)
                 \/ \E eps \in {0, 1} : Ask("approximate_eq", a, b, <<eps>>, <<>>, <<>>)
-                \/ DotDefined(regs[a], regs[b]) /\ SameShape(regs[a], regs[b]) /\ Ask("dot", a, b, <<>>, <<>>, <<>>)
-    \/ \E a \in RegsV :
+                \/ DotDefined(A, regs[b]) /\ SameShape(A, regs[b]) /\ Ask("dot", a, b, <<>>, <<>>, <<>>)
+
+QueryV ==
+    \E a \in RegsV :
+       LET A == regs[a] IN
           \/ \E op \in {"v_len", "v_to_vec", "v_sum", "v_norm2sq", "v_norm_inf", "v_unique", "v_mean", "v_var", "v_std"} :
                 Ask(op, a, 0, <<>>, <<>>, <<>>)
           \/ \E b \in RegsV :
@@ -189,11 +201,115 @@ Query ==
 
 Init == /\ regs = [i \in 1..NR |-> Empty]
         /\ prog = <<>>
+        /\ last = 0
 
 Next == \/ Build \/ BuildSpecial \/ Structural \/ Unary \/ Elementwise \/ Product \/ Stack
-        \/ Element \/ Convert \/ VectorOp \/ Reject \/ Query
+        \/ Element \/ ConvertM \/ ConvertV \/ VectorOp \/ Reject \/ QueryM \/ QueryV
 
 Spec == Init /\ [][Next]_vars
+
+(***************************************************************************)
+(* Program generation (spec -> impl).  In simulation mode TLC computes ALL *)
+(* successors of a state before it picks one, which is far too slow for    *)
+(* matrices up to 4x4 with free arguments.  SimNext is the same relation   *)
+(* with every argument drawn by TLC!RandomElement (bound through a         *)
+(* singleton set, so that each draw is made exactly once): one successor   *)
+(* per operation family.  Every SimNext step is a Next step (the guards    *)
+(* and effects are the same Do / Ask), only the way arguments are chosen   *)
+(* differs.                                                                *)
+(***************************************************************************)
+(* the reference to `prog` keeps TLC from treating RE(S) with a constant S as a constant
+   expression (which it would evaluate once and cache) *)
+RE(Sx) == RandomElement(IF Len(prog) >= 0 THEN Sx ELSE {})
+Pick(Sx, Pr(_)) == Sx # {} /\ \E x \in {RE(Sx)} : Pr(x)
+Divisors(n) == { d \in 1..n : n % d = 0 }
+
+SimBuild ==
+    \E dst \in {RE(1..NR)}, r \in {RE(1..MaxR)}, c \in {RE(1..MaxC)}, seed \in {RE(0..19)},
+       via \in {RE({"from_array", "from_2d_array", "new", "from_vec", "from_2d_vec"})} :
+       Do(via, 0, 0, dst, <<r, c>>, SeedData(seed, r * c), <<>>)
+
+SimVecBuild ==
+    \E dst \in {RE(1..NR)}, n \in {RE(1..MaxC)}, seed \in {RE(0..19)} :
+       Do("v_from_array", 0, 0, dst, <<>>, SeedData(seed, n), <<>>)
+
+SimStructural ==
+    Pick(RegsM, LAMBDA a : \E dst \in {RE(1..NR)}, k \in {RE(1..5)} :
+       LET A == regs[a] IN
+       CASE k = 1 -> Do("transpose", a, 0, dst, <<>>, <<>>, <<>>)
+         [] k = 2 -> \E r0 \in {RE(1..A.r)}, c0 \in {RE(1..A.c)} : \E r1 \in {RE(r0..A.r)}, c1 \in {RE(c0..A.c)} :
+                        Do("slice", a, 0, dst, <<r0, r1, c0, c1>>, <<>>, <<>>)
+         [] k = 3 -> \E r \in {RE(Divisors(A.r * A.c))} : Do("reshape", a, 0, dst, <<r, (A.r * A.c) \div r>>, <<>>, <<>>)
+         [] k = 4 -> \E axis \in {RE({0, 1})}, n \in {RE(1..4)} :
+                        \E idx \in {[i \in 1..n |-> RE(1..(IF axis = 0 THEN A.r ELSE A.c))]} :
+                           Do("take", a, 0, dst, <<axis>>, idx, <<>>)
+         [] OTHER -> Do("clone", a, 0, dst, <<>>, <<>>, <<>>))
+
+SimUnary ==
+    Pick(RegsM, LAMBDA a : \E dst \in {RE(1..NR)}, s \in {RE(Scal)},
+       op \in {RE({"negative", "abs", "negative_mut", "abs_mut", "add_scalar", "sub_scalar", "mul_scalar",
+                   "add_scalar_mut", "sub_scalar_mut", "mul_scalar_mut", "binarize", "binarize_mut", "pow", "pow_mut"})} :
+       Do(op, a, 0, dst, <<IF op \in {"pow", "pow_mut"} THEN 2 ELSE s>>, <<>>, <<>>))
+
+SimBinary ==
+    Pick(RegsM, LAMBDA a : Pick(RegsM, LAMBDA b : \E dst \in {RE(1..NR)}, ta \in {RE({0, 1})}, tb \in {RE({0, 1})},
+       op \in {RE({"add", "sub", "mul", "add_mut", "sub_mut", "mul_mut", "copy_from", "matmul", "ab", "ab",
+                   "h_stack", "v_stack"})} :
+       LET s == Sem(op, regs[a], regs[b], <<ta, tb>>, <<>>, <<>>) IN
+       IF s.en THEN Do(op, a, b, dst, IF op = "ab" THEN <<ta, tb>> ELSE <<>>, <<>>, <<>>)
+       ELSE Ask(op, a, b, IF op = "ab" THEN <<ta, tb>> ELSE <<>>, <<>>, <<>>)))     \* incompatible: must be rejected
+
+(* a second operand made to fit: B := a fresh matrix with A.c rows, then A * B *)
+SimFit ==
+    Pick(RegsM, LAMBDA a : \E b \in {RE(1..NR)}, c \in {RE(1..MaxC)}, seed \in {RE(0..19)} :
+       b # a /\ Do("from_array", 0, 0, b, <<regs[a].c, c>>, SeedData(seed, regs[a].c * c), <<>>))
+
+SimElement ==
+    Pick(RegsM, LAMBDA a : \E i \in {RE(1..regs[a].r)}, j \in {RE(1..regs[a].c)}, v \in {RE(Scal)},
+       op \in {RE({"set", "add_element_mut", "sub_element_mut", "mul_element_mut"})} :
+       Do(op, a, 0, 0, <<i, j, v>>, <<>>, <<>>))
+
+SimConvert ==
+    \E dst \in {RE(1..NR)} :
+       \/ Pick(RegsM, LAMBDA a : \E k \in {RE(1..2)}, i \in {RE(1..regs[a].r)} :
+              IF k = 1 THEN Do("to_row_vector", a, 0, dst, <<>>, <<>>, <<>>) ELSE Do("get_row", a, 0, dst, <<i>>, <<>>, <<>>))
+       \/ Pick(RegsV, LAMBDA a : Do("from_row_vector", a, 0, dst, <<>>, <<>>, <<>>))
+
+SimVector ==
+    Pick(RegsV, LAMBDA a : Pick(RegsV, LAMBDA b : \E dst \in {RE(1..NR)}, s \in {RE(Scal)},
+       op \in {RE({"v_add", "v_sub", "v_mul", "v_add_mut", "v_sub_mut", "v_mul_mut", "v_copy_from",
+                   "v_add_scalar", "v_sub_scalar", "v_mul_scalar", "v_mul_scalar_mut"})} :
+       LET bin == op \in {"v_add", "v_sub", "v_mul", "v_add_mut", "v_sub_mut", "v_mul_mut", "v_copy_from"}
+           sm  == Sem(op, regs[a], regs[b], <<s>>, <<>>, <<>>) IN
+       IF sm.en THEN Do(op, a, IF bin THEN b ELSE 0, dst, IF bin THEN <<>> ELSE <<s>>, <<>>, <<>>)
+       ELSE Ask(op, a, b, <<>>, <<>>, <<>>)))
+
+SimQuery ==
+    \/ Pick(RegsM, LAMBDA a :
+          LET A == regs[a] IN
+          \E op \in {RE({"shape", "sum", "min", "max", "norm1", "norm_inf", "norm_ninf", "norm2sq", "argmax", "unique",
+                         "column_mean", "softmax_mut", "mean", "var", "std", "get_row_as_vec", "get_col_as_vec",
+                         "copy_row_as_vec", "copy_col_as_vec", "cov"})},
+             axis \in {RE({0, 1})}, i \in {RE(1..A.r)}, j \in {RE(1..A.c)} :
+             /\ (op = "cov" => A.r >= 2)
+             /\ Ask(op, a, 0,
+                    CASE op \in {"mean", "var", "std"} -> <<axis>>
+                      [] op \in {"get_row_as_vec", "copy_row_as_vec"} -> <<i>>
+                      [] op \in {"get_col_as_vec", "copy_col_as_vec"} -> <<j>>
+                      [] OTHER -> <<>>, <<>>, <<>>))
+    \/ Pick(RegsM, LAMBDA a : Pick(RegsM, LAMBDA b :
+          \E op \in {RE({"eq", "approximate_eq", "div", "max_diff", "dot"})} :
+             /\ (op \in {"div", "max_diff"} => SameShape(regs[a], regs[b]))
+             /\ (op = "dot" => DotDefined(regs[a], regs[b]))
+             /\ Ask(op, a, b, IF op = "approximate_eq" THEN <<1>> ELSE <<>>, <<>>, <<>>)))
+    \/ Pick(RegsV, LAMBDA a : Pick(RegsV, LAMBDA b :
+          \E op \in {RE({"v_len", "v_to_vec", "v_sum", "v_norm2sq", "v_norm_inf", "v_unique", "v_mean", "v_var", "v_std",
+                         "v_eq", "v_dot"})} :
+             Ask(op, a, IF op \in {"v_eq", "v_dot"} THEN b ELSE 0, <<>>, <<>>, <<>>)))
+
+SimNext == \/ SimBuild \/ SimVecBuild \/ SimStructural \/ SimUnary \/ SimBinary \/ SimFit \/ SimElement
+           \/ SimConvert \/ SimVector \/ SimQuery
+SimSpec == Init /\ [][SimNext]_vars
 
 (* for exhaustive checking only the register contents and the number of calls matter *)
 View == <<regs, Len(prog)>>
@@ -289,10 +405,15 @@ LawV(V) ==
     /\ VTake(V, IdxTo(V.c)) = V
     /\ VarFrac(V.d)[1] >= 0
 
+(* Every register content is checked against the laws in the state in which it was
+   written, every pair of contents in the state in which the later of the two was
+   written; `last` is therefore left out of the VIEW without losing any check. *)
+IsMat(i) == IsM(regs[i]) /\ NonEmpty(regs[i])
 Laws ==
-    /\ \A i \in 1..NR : (IsM(regs[i]) /\ NonEmpty(regs[i])) => Law1(regs[i])
-    /\ \A i, j \in 1..NR : (IsM(regs[i]) /\ NonEmpty(regs[i]) /\ IsM(regs[j]) /\ NonEmpty(regs[j])) => Law2(regs[i], regs[j])
-    /\ \A i \in 1..NR : (IsV(regs[i]) /\ regs[i].c >= 1) => LawV(regs[i])
+    last # 0 =>
+       /\ IsMat(last) => Law1(regs[last])
+       /\ IsMat(last) => \A j \in 1..NR : IsMat(j) => Law2(regs[last], regs[j]) /\ Law2(regs[j], regs[last])
+       /\ (IsV(regs[last]) /\ regs[last].c >= 1) => LawV(regs[last])
 
 TypeOK ==
     \A i \in 1..NR : /\ regs[i].k \in {"e", "m", "v"}
